@@ -22,7 +22,9 @@ def run(tier: str) -> int:
             {"Family": "core3", "MaxLen": 4, "Starts": "zero", "Sample": 200, "workers": 3},
             {"Family": "trivia3", "MaxLen": 4, "Starts": "zero", "Sample": 120, "workers": 3},
             {"Family": "mods", "MaxLen": 3, "Starts": "all", "Sample": 150, "workers": 3},
-            {"Family": "stack", "MaxLen": 4, "Starts": "zero", "Sample": 900, "workers": 3},
+            {"Family": "stack", "MaxLen": 4, "Starts": "zero", "Sample": 500, "workers": 3},
+            {"Family": "stack1", "MaxLen": 3, "Starts": "zero", "Sample": 0, "workers": 3, "style": "both"},
+            {"Family": "stackdeep", "MaxLen": 3, "Starts": "zero", "Sample": 1200, "workers": 3},
             {"Family": "tags", "MaxLen": 3, "Starts": "zero", "Sample": 150, "workers": 2},
         ]
     else:
@@ -33,6 +35,8 @@ def run(tier: str) -> int:
             {"Family": "trivia3", "MaxLen": 4, "Starts": "zero", "Sample": 0, "workers": 8},
             {"Family": "mods", "MaxLen": 4, "Starts": "zero", "Sample": 0, "workers": 8},
             {"Family": "stack", "MaxLen": 5, "Starts": "zero", "Sample": 0, "workers": 8},
+            {"Family": "stack1", "MaxLen": 4, "Starts": "all", "Sample": 0, "workers": 8, "style": "both"},
+            {"Family": "stackdeep", "MaxLen": 4, "Starts": "zero", "Sample": 20000, "workers": 8},
             {"Family": "tags", "MaxLen": 4, "Starts": "zero", "Sample": 0, "workers": 8},
         ]
     for f in fams:
